@@ -115,6 +115,13 @@ pub fn build(draws: &[u16], tier: Tier) -> Case {
     if s.chance(1, 4) {
         c.cfg.preemption_bound = Some(s.range(0, 3));
     }
+    if s.chance(1, 8) {
+        // the walk is stopped after k iterations and resumed from the checkpoint file in a fresh
+        // process: the two parts together must still be the depth-first walk, nothing repeated
+        c.x.mode = Some("resume".into());
+        c.x.c = Some([1, 1, 2, 3][s.pick(4)] as i64);
+        c.x.k = Some(s.pick(65536) as i64);
+    }
     c
 }
 
@@ -123,6 +130,18 @@ pub fn eval(case: &Case) -> Verdict {
     let mut v = Verdict::pass();
     if let Err(e) = p.well_formed() {
         return Verdict::skip(&format!("ill-formed: {}", e));
+    }
+    if case.x.mode.as_deref() == Some("resume") {
+        // (the oracle of C13: the resumed part equals the rest of the uninterrupted walk, which
+        // this check shows to be repetition-free for the same families)
+        let mut c = case.clone();
+        c.x.mode = Some("clean".into());
+        c.cfg.max_permutations = None;
+        c.cfg.max_branches = 5000;
+        let mut v = crate::props::c13::eval(&c);
+        v.labels.retain(|l| !l.starts_with("mode_"));
+        v.label("stopped_and_resumed");
+        return v;
     }
     let rec: Arc<Mutex<Rec>> = Arc::new(Mutex::new(Rec::default()));
     let r2 = rec.clone();
